@@ -6,11 +6,13 @@ import (
 	"bytes"
 	"encoding/json"
 	"fmt"
+	"regexp"
 	"sort"
 	"strings"
 	"time"
 
 	"github.com/ichiban/prolog"
+	"github.com/ichiban/prolog/engine"
 	"github.com/ichiban/prolog/verifshim/vsync"
 
 	"verif/h"
@@ -29,6 +31,10 @@ type c12Query struct {
 	Err     string // error text after the answers ("" = none)
 	Inf     bool
 	Trace   string // output written before each answer (one char per answer), if any
+	Setup   string // program text consulted before the query
+	Gen     bool   // generator family: the answers are discovered by one sequential run to exhaustion
+	vals    []string
+	known   bool
 }
 
 var c12Queries = []c12Query{
@@ -40,6 +46,75 @@ var c12Queries = []c12Query{
 	{Name: "error1", Text: "(X = 1 ; throw(e)).", Answers: []int{1}, Err: "e"},
 	{Name: "error2", Text: "(X = 1 ; X = 2 ; throw(e)).", Answers: []int{1, 2}, Err: "e"},
 	{Name: "infinite-writing", Text: "repeat, put_char(r), X = 7.", Answers: []int{7}, Inf: true, Trace: "r"},
+}
+
+// c12Generators: every nondeterministic control construct, built-in and library predicate, each
+// followed by a goal with a visible side effect (one character per answer).
+var c12Generators = []string{
+	"between(1, 3, X)", "member(X, [1, 2, 3])", "nth0(X, [a, b, c], _)", "nth1(X, [a, b, c], _)", "nth0(_, [1, 2, 3], X)", "nth1(_, [1, 2, 3], X)",
+	"append(_, [X|_], [1, 2, 3])", "select(X, [1, 2, 3], _)", "length(_, X)", "clause(p(X), true)", "retract(p(X))", "p(X)",
+	"current_op(_, _, -), X = 1", "sub_atom(abc, X, 1, _, _)", "atom_concat(A, _, abc), atom_length(A, X)", "current_prolog_flag(_, _), X = 1",
+	"stream_property(_, _), X = 1", "call_nth(member(_, [a, b, c]), X)", "bagof(Y, member(Y-X, [a-1, b-2, c-3]), _)", "setof(Y, member(Y-X, [a-1, b-2, c-3]), _)",
+	"catch(member(X, [1, 2, 3]), _, true)", "call(member(X, [1, 2, 3]))", "call(member, X, [1, 2, 3])", "findall(Y, member(Y, [1, 2, 3]), L), member(X, L)",
+	"phrase(gen, [X])", "between(1, inf, X)", "current_predicate(p/X)", "current_predicate(Q/1), atom_length(Q, X)", "current_char_conversion(_, _), X = 1", "(X = 1 ; X = 2 ; X = 3)",
+	"(member(X, [1, 2]) -> true ; X = 3)", "(fail -> true ; member(X, [1, 2, 3]))", "\\+ fail, member(X, [1, 2, 3])", "once(member(_, [a, b])), member(X, [1, 2, 3])",
+	"rec(X)", "member(X, [1, 2, 3]), (X == 3 -> throw(oops) ; true)", "atom_length(A, X)", "member(X, [1, 2|_])",
+}
+
+var c12VarRe = regexp.MustCompile(`_[0-9]+`)
+
+const c12GenSetup = ":- dynamic(p/1). :- dynamic(seen/1). p(1). p(2). p(3). gen --> [1] ; [2] ; [3]. rec(1). rec(X) :- rec(Y), X is Y + 1."
+
+func init() {
+	for _, g := range c12Generators {
+		// two side effects in both orders: one that the engine performs at once (a database update) and
+		// one that it defers (output)
+		c12Queries = append(c12Queries, c12Query{Name: "gen " + g, Text: g + ", assertz(seen(X)), put_char(t).", Setup: c12GenSetup, Gen: true})
+		c12Queries = append(c12Queries, c12Query{Name: "gen' " + g, Text: g + ", put_char(t), assertz(seen(X)).", Setup: c12GenSetup, Gen: true})
+	}
+}
+
+// c12Discover runs a generator query sequentially (default schedule) to find its answers.
+func c12Discover(q *c12Query) {
+	if q.known {
+		return
+	}
+	q.known = true
+	if !q.Gen {
+		for _, a := range q.Answers {
+			q.vals = append(q.vals, fmt.Sprint(a))
+		}
+		return
+	}
+	vsync.MutexPoints = false
+	p := prolog.New(strings.NewReader(""), &bytes.Buffer{})
+	body := func() {
+		if err := p.Exec(q.Setup); err != nil {
+			panic(err)
+		}
+		sols, err := p.Query(q.Text)
+		if err != nil {
+			panic(err)
+		}
+		n := 0
+		for n < 5 && sols.Next() {
+			var dst struct{ X interface{} }
+			if err := sols.Scan(&dst); err != nil {
+				panic(err)
+			}
+			q.vals = append(q.vals, fmt.Sprint(dst.X))
+			n++
+		}
+		if n == 5 {
+			q.Inf = true
+		} else if err := sols.Err(); err != nil {
+			q.Err = c12VarRe.ReplaceAllString(err.Error(), "_")
+		}
+		sols.Close()
+	}
+	if r := vsync.Run(body, nil, 1000000); r.Panic != nil || r.Deadlock {
+		panic(fmt.Sprintf("c12Discover %s: %v deadlock=%v", q.Text, r.Panic, r.Deadlock))
+	}
 }
 
 type c12Case struct {
@@ -59,8 +134,9 @@ type c12Model struct {
 	closed    bool
 	ended     bool // a Next returned false because the search ended (exhausted or error)
 	curValid  bool
-	cur       int
+	cur       string
 	closeSeen bool
+	trueNexts int
 }
 
 type c12Obs struct {
@@ -76,14 +152,17 @@ func c12Step(op byte, sols *prolog.Solutions, m *c12Model, out *bytes.Buffer, o 
 		got := sols.Next()
 		want := false
 		if !m.closed && !m.ended {
-			if m.q.Inf || m.pos < len(m.q.Answers) {
+			if m.q.Inf || m.pos < len(m.q.vals) {
 				want = true
-				if m.q.Inf {
-					m.cur = m.q.Answers[0]
+				if m.pos < len(m.q.vals) {
+					m.cur = m.q.vals[m.pos]
+				} else if !m.q.Gen {
+					m.cur = m.q.vals[0]
 				} else {
-					m.cur = m.q.Answers[m.pos]
+					m.cur = "" // beyond the discovered answers of an unbounded generator: value not compared
 				}
 				m.pos++
+				m.trueNexts++
 			} else {
 				m.ended = true
 			}
@@ -98,7 +177,7 @@ func c12Step(op byte, sols *prolog.Solutions, m *c12Model, out *bytes.Buffer, o 
 		if m.curValid && !m.closed {
 			if err != nil {
 				o.bad("%sScan after a true Next failed: %v", tag, err)
-			} else if fmt.Sprint(dst.X) != fmt.Sprint(m.cur) {
+			} else if m.cur != "" && fmt.Sprint(dst.X) != m.cur {
 				o.bad("%sScan reports X = %v, the most recent answer has X = %v", tag, dst.X, m.cur)
 			}
 		}
@@ -111,7 +190,7 @@ func c12Step(op byte, sols *prolog.Solutions, m *c12Model, out *bytes.Buffer, o 
 		}
 		got := ""
 		if err != nil {
-			got = err.Error()
+			got = c12VarRe.ReplaceAllString(err.Error(), "_")
 		}
 		if want == "" && got != "" && !(m.q.Err != "" && strings.Contains(got, m.q.Err)) {
 			o.bad("%sErr reports %q although the search did not end with an error", tag, got)
@@ -141,10 +220,17 @@ func c12Run(c *c12Case, prefix []int) ([]string, *vsync.Result) {
 	out := &bytes.Buffer{}
 	p := prolog.New(strings.NewReader(""), out) // created outside the controlled region
 	o := &c12Obs{}
+	c12Discover(&c12Queries[c.Query])
 	ma := &c12Model{q: &c12Queries[c.Query]}
 	var mb *c12Model
 	if c.History2 != "" {
+		c12Discover(&c12Queries[c.Query2])
 		mb = &c12Model{q: &c12Queries[c.Query2]}
+	}
+	if ma.q.Setup != "" {
+		if err := p.Exec(ma.q.Setup); err != nil { // sequential: no goroutine is involved in Exec
+			o.bad("setup failed: %v", err)
+		}
 	}
 	outAtClose := -1
 	body := func() {
@@ -205,6 +291,15 @@ func c12Run(c *c12Case, prefix []int) ([]string, *vsync.Result) {
 	if mb == nil && ma.q.Trace != "" && !ma.q.Inf {
 		if !strings.HasPrefix(ma.q.Trace, out.String()) {
 			o.bad("output %q is not a prefix of %q", out.String(), ma.q.Trace)
+		}
+	}
+	// generator family: exactly one side effect per answer handed out - none run ahead, none after Close
+	if mb == nil && ma.q.Gen && !r.Deadlock {
+		if want := strings.Repeat("t", ma.trueNexts); out.String() != want {
+			o.bad("the goal after the generator ran %d times for %d answers handed out", out.Len(), ma.trueNexts)
+		}
+		if cs, _ := engine.VerifClauses(&p.VM, "seen", 1); len(cs) != ma.trueNexts {
+			o.bad("the goal after the generator ran %d times for %d answers handed out (clauses asserted)", len(cs), ma.trueNexts)
 		}
 	}
 	return o.problems, r
@@ -311,6 +406,9 @@ func c12Work(w *h.W) {
 	// (a) single iterator: all histories up to maxLen; BFS with a state key so that the evidence
 	// can say whether a fixpoint of (model state, shim state, last call) was reached
 	for qi := range c12Queries {
+		if c12Queries[qi].Gen {
+			continue
+		}
 		seen := map[string]int{}
 		frontier := []string{""}
 		for depth := 1; depth <= maxLen; depth++ {
@@ -351,6 +449,35 @@ func c12Work(w *h.W) {
 				return
 			}
 			w.Extra(fmt.Sprintf("new_state_keys_depth_%d", depth), int64(newKeys))
+		}
+	}
+	// (c) generator family: every nondeterministic construct x histories that stop early, late and never
+	genHist := []string{"C", "NC", "NSC", "NNC", "NNSCN", "NNNC", "NNNNE", "NNNNNCE", "NCNE", "NSNSNSNSE"}
+	if w.Thorough() {
+		genHist = append(genHist, "NNNNNNC", "NENC", "NNCC", "SNC", "NNNNNNNE")
+	}
+	for qi := range c12Queries {
+		if !c12Queries[qi].Gen {
+			continue
+		}
+		for _, hist := range genHist {
+			if !w.Mine() {
+				continue
+			}
+			if w.Expired() {
+				return
+			}
+			c := &c12Case{Query: qi, History: hist, Bound: bound}
+			finals := c12Explore(w, c, bound)
+			var ks []string
+			for k := range finals {
+				ks = append(ks, k)
+			}
+			sort.Strings(ks)
+			w.States(1)
+			w.Traces(1)
+			w.Nontrivial(fmt.Sprintf("%d:%s", qi, hist))
+			w.Outcome("gen:" + strings.Join(ks, ","))
 		}
 	}
 	// (b) two iterators on one interpreter, all merges of all pairs of short histories
@@ -409,12 +536,13 @@ func c12Work(w *h.W) {
 
 // c12ModelKey summarises the sequential model's state after a history.
 func c12ModelKey(qi int, hist string) string {
+	c12Discover(&c12Queries[qi])
 	m := &c12Model{q: &c12Queries[qi]}
 	for i := 0; i < len(hist); i++ {
 		switch hist[i] {
 		case 'N':
 			if !m.closed && !m.ended {
-				if m.q.Inf || m.pos < len(m.q.Answers) {
+				if m.q.Inf || m.pos < len(m.q.vals) {
 					m.pos++
 					m.curValid = true
 					if m.q.Inf && m.pos > 2 {
@@ -453,7 +581,7 @@ func c12Replay(b []byte) (string, string, bool) {
 func init() {
 	h.Register(&h.Check{
 		ID: "C12",
-		Rule: "(a) every call history over {Next, Scan, Err, Close} of length <= L on one Solutions, for 8 query kinds (0..3 answers, an error after 0, 1, 2 answers, an infinite generator; two of them write a character before each answer) - executed on the REAL interpreter.go/solutions.go whose channel operations and go statement are mechanically routed through a scheduler shim, under every interleaving of the consumer and the search goroutine with at most P preemptions; histories are walked breadth-first and keyed by (sequential model state, final scheduler-visible state of the goroutine over all interleavings, last call); (b) two Solutions of one interpreter: all pairs of histories of length <= L2 over {Next, Scan, Close}, all their merges, all interleavings of the three threads. Non-trivial/distinct = distinct state key / case.",
+		Rule: "(a) every call history over {Next, Scan, Err, Close} of length <= L on one Solutions, for 8 query kinds (0..3 answers, an error after 0, 1, 2 answers, an infinite generator; two of them write a character before each answer) - executed on the REAL interpreter.go/solutions.go whose channel operations and go statement are mechanically routed through a scheduler shim, under every interleaving of the consumer and the search goroutine with at most P preemptions; histories are walked breadth-first and keyed by (sequential model state, final scheduler-visible state of the goroutine over all interleavings, last call); (c) generator family: each of 37 nondeterministic control constructs, built-in and library predicates (between, member, nth0/nth1 in both modes, append, select, length, clause, retract, user clauses, current_op, sub_atom, atom_concat, current_prolog_flag, stream_property, call_nth, bagof, setof, catch, call/N, if-then-else, DCG phrase, left recursion, an error after two answers, a partial list, ...) followed by two goals with a visible side effect (a database update, which the engine performs at once, and output, which it defers; both orders), under 10 (thorough: 15) histories that close before the first, after the first, second, third and last answer or never, all interleavings; the answers are discovered by one sequential run to exhaustion, and exactly one side effect of each kind per answer handed out is required; (b) two Solutions of one interpreter: all pairs of histories of length <= L2 over {Next, Scan, Close}, all their merges, all interleavings of the three threads. Non-trivial/distinct = distinct state key / case.",
 		Explanation: "state = (iterator model state, scheduler-visible state of channels and goroutine); transition = one call on the real Solutions object executed under the controlled scheduler; 'the call blocks' is the crisp verdict 'no enabled thread while the consumer is inside a call'; a goroutine leak is 'a search goroutine still parked at the end of a history that closed or exhausted its iterator'; 'no goal runs after Close' is checked on the output written by the query",
 		Assumptions: []string{"the rewriter (cmd/vrewrite) is purely syntactic and fails loudly on constructs it does not know; the shim models Go channel semantics (buffered/unbuffered, close) as in DESIGN.md Appendix B", "Scan before the first Next, after a false Next and after Close is unspecified: only termination is checked", "unsynchronised accesses are not visible to a cooperative scheduler: a separate free-running -race pass runs the same histories (C12 race pass)"},
 		Work:        c12Work,
